@@ -106,16 +106,17 @@ func checkBoolFunc(p *Prog, f *ssa.Function, atom atomFn, names []string, formul
 	return ok, why
 }
 
-func checkC08(c *Ctx) {
+// checkContinueHandler decides the path structure of the continue handler (the closure that runs after the
+// continue interval): pause iff the pause predicate — evaluated inside the handler, i.e. after the interval —
+// holds; otherwise set up the next hand exactly once under the auto-open predicate; no silent path.
+func checkContinueHandler(c *Ctx, rule string) (lc *lifecycle, handler, pauseFn, autoFn *ssa.Function, isSetup func(ssa.Instruction) bool, ok bool) {
 	p := c.P
-	checkSettlementFinish(c, "R7")
-	lc := p.lifecycle()
+	lc = p.lifecycle()
 	if lc.continueFn == nil || lc.creator == nil || lc.openFn == nil {
-		c.Bad("R1", "anchors", "-", "continue step / creator not found")
+		c.Bad(rule, "anchors", "-", "continue step / creator not found")
 		return
 	}
 	// the handler: the closure of the continue step that can pause
-	var handler *ssa.Function
 	for _, f := range lc.continueFn.AnonFuncs {
 		for _, ss := range p.Stores([]*ssa.Function{f}) {
 			if ss.Owner == "TableState" && ss.Field == "Status" {
@@ -124,10 +125,10 @@ func checkC08(c *Ctx) {
 		}
 	}
 	if handler == nil {
-		c.Bad("R1", "continue-handler", p.Pos(lc.continueFn.Pos()), "continue handler not found")
+		c.Bad(rule, "continue-handler", p.Pos(lc.continueFn.Pos()), "continue handler not found")
 		return
 	}
-	isSetup := func(in ssa.Instruction) bool {
+	isSetup = func(in ssa.Instruction) bool {
 		ci, ok := in.(ssa.CallInstruction)
 		if !ok {
 			return false
@@ -151,7 +152,6 @@ func checkC08(c *Ctx) {
 		ci, ok := in.(ssa.CallInstruction)
 		return ok && calleeName(ci.Common()) == "fmt.Printf"
 	}
-	var pauseFn, autoFn *ssa.Function
 	// R1 path structure
 	silent, wrong := 0, ""
 	nPaths := 0
@@ -217,8 +217,19 @@ func checkC08(c *Ctx) {
 		}
 	}}
 	wk.Run()
-	c.Check(!wk.Aborted && wrong == "" && silent == 0 && nPaths >= 5, "R1", "continue-handler-structure", p.Pos(handler.Pos()), fmt.Sprintf("%d paths: closed | released | pause | set-up | logged", nPaths),
+	c.Check(!wk.Aborted && wrong == "" && silent == 0 && nPaths >= 5, rule, "continue-handler-structure", p.Pos(handler.Pos()), fmt.Sprintf("%d paths: closed | released | pause | set-up | logged", nPaths),
 		fmt.Sprintf("continue handler: %s (silent paths: %d)", wrong, silent))
+	ok = true
+	return
+}
+
+func checkC08(c *Ctx) {
+	p := c.P
+	checkSettlementFinish(c, "R7")
+	lc, handler, pauseFn, autoFn, isSetup, okH := checkContinueHandler(c, "R1")
+	if !okH {
+		return
+	}
 	// set-up argument is GameCount + 1
 	for _, b := range handler.Blocks {
 		for _, in := range b.Instrs {
